@@ -110,7 +110,7 @@ def circ_err(a, b, n):
     return abs(wrap_centered(a - b, n))
 
 
-def peak_conditioning(ref, s, tie=1e-4):
+def peak_conditioning(ref, s, tie=1e-4, im=None):
     """Domain test for the sub-pixel clause, computed from the inputs alone (float64).
 
     C(k) = sum_x ref(x + k) T_s(ref)(x) sampled on the pixel grid is the correlation every
@@ -121,7 +121,8 @@ def peak_conditioning(ref, s, tie=1e-4):
     over every pixel whose correlation is within `tie` (relative to max - mean) of the maximum, so
     that the answer does not depend on how an implementation breaks near-ties."""
     h, w = ref.shape
-    im = fourier_shift(ref, s)
+    if im is None:  # else: the (e.g. quantised) pair actually handed to the estimators
+        im = fourier_shift(ref, s)
     C = np.real(np.fft.ifft2(np.fft.fft2(ref) * np.conj(np.fft.fft2(im))))
     d = (-float(s[0]), -float(s[1]))
     cmax = float(C.max())
@@ -166,3 +167,75 @@ def skew_bound(ref):
     ex = abs(Hxy) / Hxx * math.sqrt(q / (det / Hxx))
     ey = abs(Hxy) / Hyy * math.sqrt(q / (det / Hyy))
     return max(ex, ey)
+
+
+# integer input dtypes: counts-like data.  amplitude A and pedestal P: q = round(A * img + P) with
+# max|img| = 1.  High dynamic range wherever the dtype allows, so that quantisation noise is small
+# against the asserted bounds; its actual effect on the registration is computed by `true_peak`.
+INT_DTYPES = {
+    "uint8": (100.0, 128.0),
+    "uint16": (20000.0, 30000.0),
+    "int16": (10000.0, 0.0),
+    "int32": (1.0e6, 0.0),
+    "int64": (1.0e6, 0.0),
+}
+
+
+def quantise(img, in_dtype):
+    """Integer-valued image of dtype `in_dtype` from a float image with max|img| <= 1 (+ offset 0)."""
+    A, P = INT_DTYPES[in_dtype]
+    q = np.rint(A * np.asarray(img, dtype=np.float64) + P)
+    info = np.iinfo(in_dtype)
+    if q.min() < info.min or q.max() > info.max:
+        raise ValueError("quantised image leaves the range of %s" % in_dtype)
+    return q.astype(in_dtype)
+
+
+def true_peak(ref, im, start, iters=8):
+    """Location of the maximum of the (trigonometrically interpolated) circular cross-correlation
+    C(d) = sum_x ref(x + d) im(x) nearest to `start`, by Newton iteration in float64 on the exact
+    Fourier series (Nyquist lines dropped).  This is the quantity every estimator approximates;
+    for quantised images it differs from the applied translation by the effect of the rounding
+    noise, which is what the harness needs to know.  Returns (dy, dx) or None if Newton does not
+    settle to 1e-10 px."""
+    ref = np.asarray(ref, dtype=np.float64)
+    im = np.asarray(im, dtype=np.float64)
+    h, w = ref.shape
+    Ch = np.fft.fft2(ref) * np.conj(np.fft.fft2(im)) / (h * w)
+    fy, fx = signed_freq(h), signed_freq(w)
+    if h % 2 == 0:
+        Ch[h // 2, :] = 0.0
+    if w % 2 == 0:
+        Ch[:, w // 2] = 0.0
+    ay = (2j * np.pi * fy / h)[:, None]
+    ax = (2j * np.pi * fx / w)[None, :]
+    y, x = float(start[0]), float(start[1])
+    for _ in range(iters):
+        E = Ch * np.exp(ay * y) * np.exp(ax * x)
+        gy, gx = np.real(np.sum(E * ay)), np.real(np.sum(E * ax))
+        hyy, hxx, hxy = np.real(np.sum(E * ay * ay)), np.real(np.sum(E * ax * ax)), np.real(np.sum(E * ay * ax))
+        det = hyy * hxx - hxy * hxy
+        if not (hyy < 0 and det > 0):
+            return None
+        sy = (hxx * gy - hxy * gx) / det
+        sx = (hyy * gx - hxy * gy) / det
+        y, x = y - sy, x - sx
+        if max(abs(sy), abs(sx)) < 1e-10:
+            return (y, x)
+    return None
+
+
+def drop_nyquist(d):
+    """Remove the Nyquist lines (even sizes) from a real-space difference image.  A translation by
+    a non-integer amount is not uniquely defined on those lines (cos(pi s_y) cos(pi s_x) versus
+    cos(pi (s_y + s_x)) at the corner are both real-preserving choices); band-limited test images
+    carry nothing there, quantised ones carry rounding noise."""
+    h, w = d.shape
+    if h % 2 and w % 2:
+        return d
+    F = np.fft.fft2(d)
+    if h % 2 == 0:
+        F[h // 2, :] = 0.0
+    if w % 2 == 0:
+        F[:, w // 2] = 0.0
+    return np.real(np.fft.ifft2(F))
